@@ -446,35 +446,31 @@ func (x *c17Ref) buildList(deps []c17Dep) (sel map[string]int, missing bool) {
 	return sel, missing
 }
 
-// defaults of a dep list as seen by an importer whose own module is self
+// c17Defaults: the default majors an importer's own module file gives (its own path, explicit
+// defaults, else the unique major among its requirements of a base path)
 func c17Defaults(selfBase c17Path, selfMajor int, deps []c17Dep) map[string]int {
 	def := map[string]int{}
-	cnt := map[string]map[int]bool{}
+	majors := map[string]map[int]bool{}
 	expl := map[string]bool{}
 	for _, d := range deps {
 		b := d.Base.Code()
-		if cnt[b] == nil {
-			cnt[b] = map[int]bool{}
+		if majors[b] == nil {
+			majors[b] = map[int]bool{}
 		}
-		cnt[b][d.Major] = true
+		majors[b][d.Major] = true
 		if d.Def {
 			def[b] = d.Major
 			expl[b] = true
 		}
 	}
-	for b, ms := range cnt {
-		if expl[b] {
-			continue
-		}
-		if len(ms) == 1 {
+	for b, ms := range majors {
+		if !expl[b] && len(ms) == 1 {
 			for m := range ms {
 				def[b] = m
 			}
 		}
 	}
-	if selfBase != nil {
-		def[selfBase.Code()] = selfMajor
-	}
+	def[selfBase.Code()] = selfMajor
 	return def
 }
 
@@ -488,45 +484,126 @@ func c17ModHasPkg(m *c17Mod, p c17Path) bool {
 }
 
 type c17Audit struct {
-	unresolved   []string // imports with no provider in the build list
-	ambiguous    []string
-	unused       []string // listed deps providing no needed package
-	belowSel     []string // listed deps whose listed version is below the build list's selection
-	missingMod   bool
-	neededByPath map[string]bool
+	unresolved []string // imports with no provider in the build list
+	ambiguous  []string
+	unused     []string // listed deps providing no needed package
+	unlisted   []string // modules an import resolves to that are not listed
+	belowSel   []string // listed deps whose listed version is below the build list's selection
+	missingMod bool
+	twoMajors  bool // two majors of one base path listed, none of them marked default
+}
+
+func (a *c17Audit) clean() bool {
+	return len(a.unresolved) == 0 && len(a.ambiguous) == 0 && len(a.unused) == 0 && len(a.unlisted) == 0 &&
+		len(a.belowSel) == 0 && !a.missingMod
+}
+
+// tag names the known-finding class a flawed result falls under ("" = none).
+func (a *c17Audit) tag() string {
+	switch {
+	case a.twoMajors:
+		return "two-majors-no-default"
+	case len(a.belowSel) > 0:
+		return "root-below-selected"
+	case len(a.ambiguous) > 0:
+		return "ambiguous-in-build-list"
+	}
+	return ""
+}
+
+// providers of an import in the build list sel, with the given default majors
+func (x *c17Ref) providers(sel map[string]int, im c17Imp, def map[string]int) (mods []*c17Mod, keys []string) {
+	main := &x.u.Main
+	for n := len(im.Path); n >= 1; n-- {
+		base := im.Path[:n]
+		major := im.Major
+		if major < 0 {
+			d, ok := def[base.Code()]
+			if !ok {
+				continue
+			}
+			major = d
+		}
+		var m *c17Mod
+		key := fmt.Sprintf("%s@%d", base.Code(), major)
+		if base.Code() == main.Base.Code() && major == main.Major {
+			m = main
+		} else if rk, ok := sel[key]; ok {
+			m = x.mods[c17Key(base, major, rk)]
+		}
+		if m != nil && c17ModHasPkg(m, im.Path) {
+			mods = append(mods, m)
+			keys = append(keys, key)
+		}
+	}
+	return
+}
+
+// mainDefaults: explicit defaults, the main module's own path, else the single listed entry
+// of a base path (several entries without an explicit default: no default)
+func c17MainDefaults(main *c17Mod, deps []c17Dep) (map[string]int, bool) {
+	def := map[string]int{}
+	cnt := map[string]int{}
+	expl := map[string]bool{main.Base.Code(): true}
+	def[main.Base.Code()] = main.Major
+	for _, d := range deps {
+		cnt[d.Base.Code()]++
+		if d.Def {
+			def[d.Base.Code()] = d.Major
+			expl[d.Base.Code()] = true
+		}
+	}
+	two := false
+	for _, d := range deps {
+		b := d.Base.Code()
+		if expl[b] {
+			continue
+		}
+		if cnt[b] == 1 {
+			def[b] = d.Major
+		} else {
+			two = true
+		}
+	}
+	return def, two
 }
 
 // audit evaluates the property's predicates for the module file `deps` of the main module.
 func (x *c17Ref) audit(deps []c17Dep) *c17Audit {
-	a := &c17Audit{neededByPath: map[string]bool{}}
+	a := &c17Audit{}
 	sel, missing := x.buildList(deps)
 	a.missingMod = missing
+	listed := map[string]bool{}
 	for _, d := range deps {
 		k := fmt.Sprintf("%s@%d", d.Base.Code(), d.Major)
+		listed[k] = true
 		if sel[k] > d.Rank {
 			a.belowSel = append(a.belowSel, d.Code())
 		}
 	}
 	main := &x.u.Main
-	mainDef := c17Defaults(main.Base, main.Major, deps)
+	mainDef, two := c17MainDefaults(main, deps)
+	a.twoMajors = two
 	used := map[string]bool{}
 	type item struct {
 		imp c17Imp
-		def map[string]int
-		tag string
+		ctx *c17Mod // nil = main
 	}
 	seen := map[string]bool{}
 	var queue []item
-	push := func(im c17Imp, def map[string]int, tag string) {
-		k := tag + " " + im.Code()
+	push := func(im c17Imp, ctx *c17Mod) {
+		k := "main " + im.Code()
+		if ctx != nil {
+			k = c17Key(ctx.Base, ctx.Major, ctx.Rank) + " " + im.Code()
+		}
 		if !seen[k] {
 			seen[k] = true
-			queue = append(queue, item{im, def, tag})
+			queue = append(queue, item{im, ctx})
 		}
 	}
 	for _, p := range main.Pkgs {
 		for _, im := range p.Imports {
-			push(im, mainDef, "main")
+			push(im, nil)
 		}
 	}
 	for len(queue) > 0 {
@@ -536,57 +613,40 @@ func (x *c17Ref) audit(deps []c17Dep) *c17Audit {
 		if !strings.Contains(c17Elems[im.Path[0]], ".") {
 			continue // standard library
 		}
-		var provs []*c17Mod
-		var provKeys []string
-		for n := len(im.Path); n >= 1; n-- {
-			base := im.Path[:n]
-			major := im.Major
-			if major < 0 {
-				d, ok := it.def[base.Code()]
-				if !ok {
-					continue
-				}
-				major = d
-			}
-			var m *c17Mod
-			key := fmt.Sprintf("%s@%d", base.Code(), major)
-			if base.Code() == main.Base.Code() && major == main.Major {
-				m = main
-			} else if rk, ok := sel[key]; ok {
-				m = x.mods[c17Key(base, major, rk)]
-			}
-			if m != nil && c17ModHasPkg(m, im.Path) {
-				provs = append(provs, m)
-				provKeys = append(provKeys, key)
-			}
-		}
-		switch len(provs) {
-		case 0:
-			if it.tag != "main" {
-				// the code's rule: an import a dependency's own module file gives no major
-				// version for is resolved with the main module's defaults
-				push(im, mainDef, "main")
+		if it.ctx != nil && im.Major < 0 {
+			// the importer's own module file decides the major version
+			ms, _ := x.providers(sel, im, c17Defaults(it.ctx.Base, it.ctx.Major, it.ctx.Deps))
+			if len(ms) > 1 {
+				a.ambiguous = append(a.ambiguous, im.Code())
 				continue
 			}
-			a.unresolved = append(a.unresolved, im.Code())
+			if len(ms) == 1 && ms[0] != main {
+				im = c17Imp{Path: im.Path, Major: ms[0].Major}
+			}
+		}
+		provs, keys := x.providers(sel, im, mainDef)
+		switch len(provs) {
+		case 0:
+			a.unresolved = append(a.unresolved, it.imp.Code())
 			continue
 		case 1:
 		default:
-			a.ambiguous = append(a.ambiguous, im.Code())
+			a.ambiguous = append(a.ambiguous, it.imp.Code())
 			continue
 		}
 		m := provs[0]
-		used[provKeys[0]] = true
-		def := mainDef
-		tag := "main"
+		var ctx *c17Mod
 		if m != main {
-			def = c17Defaults(m.Base, m.Major, m.Deps)
-			tag = c17Key(m.Base, m.Major, m.Rank)
+			used[keys[0]] = true
+			if !listed[keys[0]] {
+				a.unlisted = append(a.unlisted, keys[0])
+			}
+			ctx = m
 		}
 		for _, p := range m.Pkgs {
 			if p.Path.Code() == im.Path.Code() {
 				for _, im2 := range p.Imports {
-					push(im2, def, tag)
+					push(im2, ctx)
 				}
 			}
 		}
@@ -599,7 +659,31 @@ func (x *c17Ref) audit(deps []c17Dep) *c17Audit {
 	sort.Strings(a.unresolved)
 	sort.Strings(a.ambiguous)
 	sort.Strings(a.unused)
+	sort.Strings(a.unlisted)
 	return a
+}
+
+// closed reports whether every requirement of every published module (and of the main
+// module) names a module version the registry has.
+func (u *c17Universe) closed() bool {
+	have := map[string]bool{}
+	for _, m := range u.Mods {
+		have[c17Key(m.Base, m.Major, m.Rank)] = true
+	}
+	ok := func(ds []c17Dep) bool {
+		for _, d := range ds {
+			if !have[c17Key(d.Base, d.Major, d.Rank)] {
+				return false
+			}
+		}
+		return true
+	}
+	for _, m := range u.Mods {
+		if !ok(m.Deps) {
+			return false
+		}
+	}
+	return ok(u.Main.Deps)
 }
 
 // ---- cases ------------------------------------------------------------------------------
@@ -666,6 +750,14 @@ func c17Case(c *Cfg, r *Rng, u *c17Universe, full bool) {
 	if !res.ok {
 		return
 	}
+	if !u.closed() {
+		// a module of the registry requires a version the registry does not have: whether
+		// tidy trips over it depends on which versions happen to be selected, so the
+		// fixpoint and soundness predicates are only evaluated for registries that are
+		// closed under requirements (stated as an assumption of the property check)
+		c.Count("universe/not-closed-under-requirements")
+		return
+	}
 	if res.local {
 		c.Direct(false, "unexpected-local", "Tidy produced a local-module.cue although no replace exists", code)
 	}
@@ -675,49 +767,165 @@ func c17Case(c *Cfg, r *Rng, u *c17Universe, full bool) {
 	tidied.Main.Deps = res.deps
 	tcode := tidied.Code()
 	res2 := w.tidy(u.mainFS(res.text, nil), reg)
-	class := "not-idempotent"
 	x := c17NewRef(u)
 	aud := x.audit(res.deps)
-	if len(aud.belowSel) > 0 {
-		class = "not-idempotent:root-below-selected"
+	tag := aud.tag()
+	class := func(name string) string {
+		if tag != "" {
+			return tag
+		}
+		return name
 	}
-	c.Direct(res2.ok && res2.text == res.text, class, "Tidy(Tidy(x)) differs from Tidy(x)",
+	if tag != "" {
+		c.Count("finding-shape/" + tag)
+	}
+	c.Direct(res2.ok && res2.text == res.text, class("not-idempotent"), "Tidy(Tidy(x)) differs from Tidy(x)",
 		map[string]any{"universe": code, "tidied": tcode, "first": res.text, "second": res2.answer() + " " + res2.err + "\n" + res2.text})
 	ck2, ckMsg := w.check(u.mainFS(res.text, nil), reg)
-	class = "check-rejects-tidy-output"
-	if len(aud.belowSel) > 0 {
-		class += ":root-below-selected"
-	}
-	c.Direct(ck2 == "ok", class, "CheckTidy rejects Tidy's own output: "+ck2+": "+ckMsg,
+	c.Direct(ck2 == "ok", class("check-rejects-tidy-output"), "CheckTidy rejects Tidy's own output: "+ck2+": "+ckMsg,
 		map[string]any{"universe": code, "tidied": tcode, "text": res.text})
-	// the model's verdict on the tidied file as well
+	// the model's answers on the tidied file as well
 	c.Op("O", "tidy "+tcode, res2.answer())
 
-	// 4. the property's predicates by the reference resolver and by the Lean specification
-	tag := ""
-	if len(aud.belowSel) > 0 {
-		tag = "root-below-selected"
-	}
-	c.Direct(len(aud.belowSel) == 0, "mvs-root-below-selected",
+	// 4. the property's predicates, by the reference resolver here and by the Lean specification
+	c.Direct(len(aud.belowSel) == 0, class("mvs-root-below-selected"),
 		"a listed version is below the version minimal version selection picks in the tidied file's own graph: "+strings.Join(aud.belowSel, " "),
 		map[string]any{"universe": code, "tidied": res.answer()})
-	c.Direct(len(aud.unresolved) == 0 && len(aud.ambiguous) == 0 && !aud.missingMod, "unresolved-import"+map[bool]string{true: ":root-below-selected", false: ""}[tag != ""],
+	c.Direct(len(aud.unresolved) == 0 && len(aud.ambiguous) == 0 && !aud.missingMod, class("unresolved-import"),
 		fmt.Sprintf("an import does not resolve uniquely in the build list of the tidied file: unresolved %v ambiguous %v", aud.unresolved, aud.ambiguous),
 		map[string]any{"universe": code, "tidied": res.answer()})
-	c.Direct(len(aud.unused) == 0, "unused-entry"+map[bool]string{true: ":root-below-selected", false: ""}[tag != ""],
+	c.Direct(len(aud.unused) == 0, class("unused-entry"),
 		"a listed module provides no needed package: "+strings.Join(aud.unused, " "),
+		map[string]any{"universe": code, "tidied": res.answer()})
+	c.Direct(len(aud.unlisted) == 0, class("needed-module-not-listed"),
+		"an import resolves to a module of the build list that is not listed: "+strings.Join(aud.unlisted, " "),
 		map[string]any{"universe": code, "tidied": res.answer()})
 	c.OpTag("O", tag, "spec "+code+" "+c17DepsCode(res.deps), "ok")
 }
 
-// c17Witnesses replays the witnesses of the Lean counterexample theorems on the real
-// implementation (filled in below).
-func c17Witnesses(c *Cfg) {}
+// ---- witnesses of the Lean counterexample theorems, replayed on the implementation -------
+
+func c17ParsePathCode(s string) c17Path {
+	var p c17Path
+	for _, e := range strings.Split(s, ".") {
+		n := 0
+		fmt.Sscanf(e, "%d", &n)
+		p = append(p, n)
+	}
+	return p
+}
+
+func c17ParseDepsCode(s string) []c17Dep {
+	var out []c17Dep
+	if s == "-" {
+		return nil
+	}
+	for _, d := range strings.Split(s, ",") {
+		def := strings.HasSuffix(d, "!")
+		d = strings.TrimSuffix(d, "!")
+		mp, rk, _ := strings.Cut(d, "=")
+		b, mj, _ := strings.Cut(mp, "@")
+		var major, rank int
+		fmt.Sscanf(mj, "%d", &major)
+		fmt.Sscanf(rk, "%d", &rank)
+		out = append(out, c17Dep{Base: c17ParsePathCode(b), Major: major, Rank: rank, Def: def})
+	}
+	return out
+}
+
+func c17ParsePkgsCode(s string) []c17Pkg {
+	var out []c17Pkg
+	if s == "-" {
+		return nil
+	}
+	for _, p := range strings.Split(s, ";") {
+		pp, is, _ := strings.Cut(p, ">")
+		pk := c17Pkg{Path: c17ParsePathCode(pp)}
+		if is != "-" {
+			for _, i := range strings.Split(is, ",") {
+				ip, mj, has := strings.Cut(i, "@")
+				im := c17Imp{Path: c17ParsePathCode(ip), Major: -1}
+				if has {
+					fmt.Sscanf(mj, "%d", &im.Major)
+				}
+				pk.Imports = append(pk.Imports, im)
+			}
+		}
+		out = append(out, pk)
+	}
+	return out
+}
+
+// c17ParseUniverse reads the text c17Universe.Code writes.
+func c17ParseUniverse(code string) *c17Universe {
+	mainS, regS, _ := strings.Cut(code, " ")
+	u := &c17Universe{}
+	f := strings.Split(mainS, "#")
+	b, mj, _ := strings.Cut(f[0], "@")
+	u.Main = c17Mod{Base: c17ParsePathCode(b), Deps: c17ParseDepsCode(f[1]), Pkgs: c17ParsePkgsCode(f[2])}
+	fmt.Sscanf(mj, "%d", &u.Main.Major)
+	if regS != "-" {
+		for _, ms := range strings.Split(regS, "|") {
+			f := strings.Split(ms, "#")
+			mp, rk, _ := strings.Cut(f[0], "=")
+			b, mj, _ := strings.Cut(mp, "@")
+			m := c17Mod{Base: c17ParsePathCode(b), Deps: c17ParseDepsCode(f[1]), Pkgs: c17ParsePkgsCode(f[2])}
+			fmt.Sscanf(mj, "%d", &m.Major)
+			fmt.Sscanf(rk, "%d", &m.Rank)
+			u.Mods = append(u.Mods, m)
+		}
+	}
+	return u
+}
+
+// The universes of the theorems C17_mvs_consistent_false, C17_idem_false and
+// C17_unambiguous_false (Props/C17.lean), with the result they produce on the unchanged tree.
+var c17WitnessList = []struct{ name, code, want string }{
+	// t.test/m lists only t.test/a; a's packages import b/x and c/x, a requires b v0.1.0 and
+	// c v0.1.0; c v0.1.0 requires b v0.2.0.  The input file is consistent (b is not in c's
+	// pruned view); the tidied file lists b v0.1.0 although its own graph selects b v0.2.0.
+	{"root-below-selected", "8.5@0#8.1@0=3#8.5.10>8.1.10 8.1@0=3#8.2@0=3,8.3@0=3#8.1.10>8.2.10,8.3.10|8.2@0=3#-#8.2.10>-|8.2@0=5#-#8.2.10>-|8.3@0=3#8.2@0=5#8.3.10>-",
+		"ok 8.1@0=3,8.2@0=3,8.3@0=3"},
+	// a/x is imported without a major version (resolved by "the only major of t.test/a among
+	// the roots"), a/y@v1 is reached through b's requirement on a@v1: both majors become roots,
+	// neither is marked default, and the tidied file no longer resolves a/x.
+	{"two-majors-no-default", "8.5@0#8.1@0=3,8.2@0=3#8.5.10>8.1.10,8.1.11@1 8.1@0=3#-#8.1.10>-|8.1@1=3#-#8.1.11>-|8.2@0=3#8.1@1=3#8.2.10>-",
+		"ok 8.1@0=3,8.1@1=3"},
+	// b/x is provided by module t.test (directory b/x) and by module t.test/b, both in the
+	// build list; the roots-first lookup picks t.test and never sees the ambiguity.
+	{"ambiguous-in-build-list", "8.5@0#-#8.5.10>8.3.10@0 8@0=3#-#8.2.10>-|8.3@0=3#8.2@0=3#8.3.10>8.2.10|8.2@0=3#-#8.2.10>-",
+		"ok 8.3@0=3,8@0=3"},
+}
+
+func c17Witnesses(c *Cfg) {
+	r := NewRng(12345)
+	for _, wt := range c17WitnessList {
+		u := c17ParseUniverse(wt.code)
+		if u.Code() != wt.code {
+			c.Direct(false, "harness-witness", "witness does not round-trip through the universe parser: "+wt.name, wt.code)
+			continue
+		}
+		w, err := c17NewWorld(c, u, true)
+		if err != nil {
+			c.Direct(false, "harness-upload", err.Error(), wt.code)
+			continue
+		}
+		reg, _ := w.registry(r.Sub(), false, true)
+		res := w.tidy(u.mainFS("", nil), reg)
+		w.close()
+		if res.answer() == wt.want {
+			c.Count("witness/" + wt.name + "/as-in-the-theorem")
+		} else {
+			c.Count("witness/" + wt.name + "/changed:" + res.answer())
+		}
+		c17Case(c, r.Sub(), u, true)
+	}
+}
 
 func runC17(c *Cfg) {
 	r := NewRng(c.Seed)
 	c17Witnesses(c)
-	n := c.Pick(2500, 40000)
+	n := c.Pick(2000, 40000)
 	if c.Focus {
 		n = c.Pick(4000, 40000)
 	}
